@@ -31,7 +31,7 @@ def judge(old, steps, LIB):
         bad.append('content_neither_identical_nor_appended')
     if rc1 != 0 and not same:
         bad.append('refused_but_modified')
-    if rc1 != 0 and not foreign:
+    if rc1 != 0 and not foreign and not (own and len(C.active_mentions(oldc)) >= 2):
         bad.append('refused_without_foreign_active_mention')
     if rc1 == 0 and same and not own:
         bad.append('unchanged_although_own_entry_not_active')
@@ -45,9 +45,9 @@ def judge(old, steps, LIB):
     if new2 != new1:
         bad.append('enable_twice_differs_from_once')
     # status after a successful enable
-    # (with several active mentions already in the file `status` aborts with 'Multiple Snoopy references'; the statement's
-    #  'reports the entry as present' is only demanded when the enabled file holds exactly one active mention)
-    if rc1 == 0 and not foreign and len(C.active_mentions(new1 or b'')) == 1 and not ok3:
+    # (`status` aborts with 'Multiple Snoopy references' when several active lines mention a libsnoopy.so: an `enable` that reports
+    #  success - "already enabled" - on such a file breaks the statement's last clause; a refusal does not)
+    if rc1 == 0 and not ok3:
         bad.append('status_does_not_report_enabled')
     if new3 != new2:
         bad.append('status_modified_file')
@@ -122,6 +122,14 @@ def run(ck):
                          {'file': None if f is None else f.decode('latin-1'), 'LIB': LIB.decode(), 'enable_rc': steps[0][0], 'after_enable': None if steps[0][1] is None else steps[0][1].decode('latin-1'), 'failed': bad})
         if len(samples) < 5 and evals % 3001 == 0:
             samples.append({'file': (f or b'').replace(LIB, b'LIB').decode('latin-1'), 'rc': steps[0][0], 'changed': steps[0][1] != f})
+    # files whose size does not fit an int (sparse; the last line is another library's entry)
+    for label, hbad in C.huge_file_cases(ck, cli, LIB):
+        if not label.startswith('enable'):
+            continue
+        evals += 1
+        outcomes.add(('huge', label, tuple(hbad)))
+        if hbad:
+            ck.violation('C18:%s:%s' % ('+'.join(hbad), label), {'case': label, 'failed': hbad})
     ck.coverage(states=len(outcomes), transitions=evals, traces_validated_against_impl=evals, evaluations=evals, distinct_nontrivial=len(outcomes), files=len(fs),
                 rule='all files up to the line bound over the 22-line alphabet x {final newline, none} + absent + empty, each: enable, enable, status; distinct = (exit code, changed?, status ok?, #active mentions, absent?, final newline?, failure set)',
                 samples=samples or [{'note': 'none'}])
